@@ -76,6 +76,7 @@ def run(case):
         log = w.final_log()
         mvcc.check_snapshots(w, log)
         mvcc.check_pokers(w, log, w.poker_results)
+        mvcc.check_serials(w, log)
         if not s.deadlock and not s.capped:
             mvcc.check_final_state(w, log)
     except Exception as e:      # noqa: B902
